@@ -354,6 +354,24 @@ def outcomeNested (cfg : Cfg) (levels : List Level) (loop : Option LoopRange) : 
     | none => none
     | some c => outcome cfg c
 
+/-! ## Several references in one equation (stencils `x[i+1] - x[i-1]`)
+
+Every reference is a `ComponentRef` node of its own: `get_indexed_symbol` runs once per reference, creates an
+indexed symbol of its own and registers an index list of its own in the loop (`indexed_symbols` is keyed by
+the symbol object, not by its name), so the references are checked and selected independently. -/
+
+/-- the residual of `z = x[…] + w * x[…]`, row by row: the first reference's entries, then the second's -/
+def joinRows : List (List Pos) → List (List Pos) → List (List Pos)
+  | r :: rs, q :: qs => (r ++ q) :: joinRows rs qs
+  | _, _ => []
+
+/-- Generation of a one-equation model holding two references (same loop, if any): `none` as soon as one
+    of them raises. -/
+def outcomePair (cfg : Cfg) (c₁ c₂ : Case) : Option (List (List Pos)) :=
+  match outcomePadded cfg c₁, outcomePadded cfg c₂ with
+  | some r₁, some r₂ => some (joinRows r₁ r₂)
+  | _, _ => none
+
 /-! ## Modelica's meaning of a subscript (the specification side; not used by `outcome`) -/
 
 /-- `a, a+s, a+2s, …` up to `b` (`s > 0`); empty when `b < a`. -/
